@@ -140,6 +140,17 @@ def handle (st : St) (line : String) : St × Option String :=
     | some "GW" => (st, some (opAlias st head path arg out))
     | some "D" => (st, some (opDeq st head path arg out))
     | some "CY" => (st, some (opCycle st [head, path, arg, out]))
+    -- HS <tid> p <vid> | <path A> | <path B> | kept|changed|err|panic — a Set history on one object with a shared
+    -- buffer, judged by the harness: the third (unbuffered) Set into A must leave everything off A as it was
+    -- (C03's frame clause in a state where values handed out by a buffer are neighbours; C07.handles_never_overlap
+    -- is why the repaired library keeps it). A test-level observation: no model function is evaluated here.
+    | some "HS" =>
+      (st, some (match out with
+        | ["kept"] => "agree"
+        | ["err"] => "skip history-step-refused"
+        | ["changed"] => "dev-viol off-path element changed by the last Set of a buffered history"
+        | ["panic"] => "dev-viol panic"
+        | _ => "skip malformed"))
     | _ => (st, some "skip unknown-op")
   | [head, path, src, mode, out] =>
     match head.head? with
